@@ -127,6 +127,24 @@ let () =
               (match read_array pa (shape_of (fixed_tree ety [])) s with
                | Some l -> Printf.printf "1 n%d " (List.length l); List.iter (fun t -> List.iter (fun x -> Printf.printf "%s " (bits x)) (flat t)) l
                | None -> print_string "0 "))
+     | ["XT"; cw; h] | ["XA"; cw; h] as cmd ->
+         let cw = cw <> "0" in let text = unhex h in let s = str_of_string text in
+         let isT = List.hd cmd = "XT" in
+         let enc = string_of_str (xml_encode cw isT s) in
+         let decl = "<?xml version=\"1.0\" encoding=\"UTF-8\" ?>" in
+         let doc = if isT then (if text = "" then decl ^ "<r />" else decl ^ "<r>" ^ enc ^ "</r>")
+                   else (let q = if String.contains text '"' then "'" else "\"" in decl ^ "<r a=" ^ q ^ enc ^ q ^ " />") in
+         (* utf8 = false: Xml.cpp parses with TIXML_ENCODING_UNKNOWN and the declaration's encoding is never picked up
+            (shadowed variable in TiXmlDocument::Parse), see known finding xml_reference_above_127_truncated *)
+         let back = if isT then xml_read_text cw false (str_of_string enc) else xml_read_attr false (str_of_string enc) in
+         (match back with
+          | Some r -> Printf.printf "%s 1 %s" (tohex doc) (tohex (string_of_str r))
+          | None -> print_string "0")
+     | ["XR"; cw; h] ->
+         let cw = cw <> "0" in let s = str_of_string (unhex h) in
+         (match xml_read_attr false s, xml_read_text cw false s with
+          | Some a, Some t -> Printf.printf "1 %s %s" (tohex (string_of_str a)) (tohex (string_of_str t))
+          | _ -> print_string "0")
      | [] -> ()
      | _ -> print_string "?");
     if toks line <> [] then print_newline ()
